@@ -60,7 +60,9 @@ pub fn mix64(mut z: u64) -> u64 {
 }
 /// what "arbitrary non-zero pre-filled memory" holds at address a
 pub fn background(a: u64) -> u64 {
-    (a ^ 0x5555_5555_5555_5555) | 1
+    // never zero; PRESENT (bit 0) set in every second word only, HUGE_PAGE (bit 7) varies too:
+    // stale content must not look uniformly "present"
+    (a ^ 0x5555_5555_5555_5554) | ((a >> 3) & 1)
 }
 pub fn fill_background(frame: u64) {
     for i in 0..512 {
